@@ -139,6 +139,33 @@ class InsufficientLDPictureBytesError(UnsatisfiableCodecFeaturesError):
         )
 
 
+class QuantizationIndexOutOfRangeError(UnsatisfiableCodecFeaturesError):
+    """
+    Thrown when the 'picture_bytes' field of a
+    :py:class:`vc2_conformance.codec_features.CodecFeatures` is so small,
+    relative to the signal range and quantization matrix in use, that a slice
+    could only be made to fit using a quantization index too large to be
+    represented in the bitstream.
+    """
+
+    def explain(self):
+        (codec_features,) = self.args
+
+        return """
+            The codec configuration {} specifies picture_bytes as {} but this
+            is too small.
+
+            To fit within this size at least one slice would require a
+            quantization index larger than {}, the largest which may be
+            encoded in a {} profile slice (13.5.3.1, 13.5.4).
+        """.format(
+            codec_features["name"],
+            codec_features["picture_bytes"],
+            (1 << (7 if codec_features["profile"].name == "low_delay" else 8)) - 1,
+            codec_features["profile"].name.replace("_", " "),
+        )
+
+
 class LosslessUnsupportedByLowDelayError(UnsatisfiableCodecFeaturesError):
     """
     Thrown when lossless coding is chosen for the low delay profile (which only
